@@ -17,7 +17,7 @@ R-C18-5  (syntax) interpolated expressions are re-lexed verbatim (`tokenize_dire
          brace counter goes from 0 to 1 as `state.pos.offset_pos(string.len() + 1)`.
 """
 import re
-from .common import idents_in, walk, src, strip, AnchorError, must_call_blocks
+from .common import idents_in, walk, src, strip, AnchorError, must_call_blocks, must_call_deep, text_as_is
 from .lexer import LexerModel
 
 VARIABLE_DISPLAY = {
@@ -177,65 +177,96 @@ def run(chk, facts):
 
     # ---------------- R-C18-2 ----------------
     try:
-        w = syn.one_fn("width", impl_of="Token")
-        ok = src(strip(w["body"])).replace(" ", "") in ("{self.to_string().len()}", "self.to_string().len()")
-        chk.ob("R-C18-2", "width=to_string().len()", ok, "Token::width is the length of the printed form" if ok else f"Token::width is `{src(w['body'])[:60]}`", facts.loc_of(w))
-        st = syn.one_fn("token", impl_of="State")
-        from .common import inline_lets
-        s_ = src(st["body"]).replace(" ", "")
-        s_inl = src(inline_lets(st["body"])).replace(" ", "")   # named intermediates are inlined (wrapped in parentheses)
-        ok1 = re.search(r"self\.pos=self\.pos\.offset_pos\(\(*token(\.clone\(\))?\.width\(\)\)*\)", s_inl) is not None
-        # lines: on every path on which the token is a Str / DocStr the caret moves down by lines().count().saturating_sub(1) of
-        # its text; on no other path does it move down (decided per path: if-let chain, or-pattern match .. alike)
-        from .common import fn_paths
-        LINES = re.compile(r"^self\.pos=self\.pos\.offset_line\(\(*(\w+)\.lines\(\)\.count\(\)\.saturating_sub\(1\)\)*\)$")
-        seen_v, bad_line = set(), None
-        for p_ in fn_paths(st["body"]):
-            vs = set()
-            for c_, pol in p_.conds:
-                if pol:
-                    vs |= set(re.findall(r"Token::(Str|DocStr)\(", c_))
-            moves = []
-            for ev in p_.events:
-                t_ = src(ev).replace(" ", "")
-                while t_.startswith("(") and t_.endswith(")"):
-                    t_ = t_[1:-1]
-                if t_.startswith("self.pos=") and "offset_line" in t_:
-                    moves.append(t_)
-            if vs:
-                seen_v |= vs
-                if len(moves) != 1 or not LINES.match(moves[0]):
-                    bad_line = bad_line or f"token {sorted(vs)}: line moves {moves}"
-            elif moves:
-                bad_line = bad_line or f"a token that is not a string moves the line: {moves}"
-        n_sat = len(seen_v)
-        ok2 = seen_v == {"Str", "DocStr"} and bad_line is None
-        chk.ob("R-C18-2", "State::token:advance", ok1, "State::token advances the caret by token.width()" if ok1 else "State::token no longer advances the caret by token.width()", facts.loc_of(st))
-        chk.ob("R-C18-2", "State::token:lines", ok2, "State::token advances lines by lines().count().saturating_sub(1) for Str and DocStr" if ok2 else
-               f"State::token line advance changed ({bad_line or sorted(seen_v)}): an empty or multi-line string moves later line numbers", facts.loc_of(st))
-        # the token is pushed with the position *before* the advance
-        i_push = s_.find("res.push(Lex::new(self.pos,token.clone()))")
-        i_adv = s_.find("self.pos=self.pos.offset_pos(")
-        ok3 = 0 <= i_push < i_adv
-        chk.ob("R-C18-2", "State::token:start-before-advance", ok3, "the token is recorded at the caret before it advances" if ok3 else "the token is no longer recorded at the caret position before the advance", facts.loc_of(st))
-        ln = syn.one_fn("new", impl_of="Lex")
+        from .common import inline_lets, fn_paths
         from . import symeval
         se = symeval.SymEval(syn, "parse::lex")
+        w = syn.one_fn("width", impl_of="Token")
+        wv = se.ev(w["body"], {"self": ("var", "self")})
+        measure = None          # how the printed form is measured: ("len",) or ("chars", "count")
+        if wv == ("mcall", ("var", "self"), "len", []):
+            measure = ("len",)
+        elif wv == ("mcall", ("mcall", ("var", "self"), "chars", []), "count", []):
+            measure = ("chars", "count")
+        ok = measure == ("chars", "count")
+        chk.ob("R-C18-2", "width=characters-of-printed-form", ok, "Token::width is the number of characters of the printed form (a column is one character: State::space, the caret that runs through a literal, the renderer's indentation)" if ok else
+               (f"Token::width is `{src(w['body'])[:60]}`" if measure is None else "Token::width counts bytes, every other column count characters: after a non-ASCII character all columns of the line are too large"), facts.loc_of(w))
+
+        def meas(x):
+            v = x
+            for m_ in measure or ("len",):
+                v = ("mcall", v, m_, [])
+            return v
+
+        def terms(v):
+            if v[0] == "bin" and v[1] == "+":
+                return sorted(terms(v[2]) + terms(v[3]), key=repr)
+            return [v]
+        # the caret after a token is one function of (caret before, token): Token::end.  A printed form without a line break
+        # advances the column by its width; one with line breaks ends on its last line: line + number of '\n' (the lexer's own
+        # line rule, R-C19-4 lexer:newline-at-LF-and-CRLF), column = 1 + what follows the last break
+        en = syn.one_fn("end", impl_of="Token")
+        ev_ = se.ev(en["body"], {"self": ("var", "self"), "start": ("var", "start")})
+        splits = [n for n in walk(en["body"]) if n.get("k") == "mcall" and n["m"] == "rsplit_once" and n["args"] and strip(n["args"][0]).get("k") == "lit" and strip(n["args"][0])["v"] == "\n"]
+        ok_split = len(splits) == 1 and ev_[0] == "ite" and ev_[1].startswith("some(") and "rsplit_once" in ev_[1]
+        ok_none = ok_split and ev_[3] == ("mcall", ("var", "start"), "offset_pos", [meas(("var", "self"))])
+        ok_some = False
+        why_e = symeval.show(ev_)[:160]
+        if ok_split:
+            # names bound by the Some((a, b)) pattern
+            pats = [a_["pat"] for n in walk(en["body"]) if n.get("k") == "match" for a_ in n["arms"] if src(a_["pat"]).startswith("Some")] + \
+                   [n["c"]["pat"] for n in walk(en["body"]) if n.get("k") == "if" and n["c"].get("k") == "let" and src(n["c"]["pat"]).startswith("Some")]
+            names = [p_["name"] for p_ in walk(pats[0]) if p_.get("k") == "pident"] if pats else []
+            sv = ev_[2]
+            if len(names) == 2 and ((sv[0] == "call" and sv[1] in ("CaretPos::new",) and len(sv[2]) == 2) or (sv[0] == "core" and sv[1] == "CaretPos")):
+                line_v, pos_v = (sv[2][0], sv[2][1]) if sv[0] == "call" else (sv[2].get("line"), sv[2].get("pos"))
+                want_line = sorted([("var", "start.line"), ("mcall", ("mcall", ("var", names[0]), "matches", [("str", "\n")]), "count", []), ("int", "1")], key=repr)
+                want_pos = sorted([meas(("var", names[1])), ("int", "1")], key=repr)
+                ok_some = line_v is not None and pos_v is not None and terms(line_v) == want_line and terms(pos_v) == want_pos
+        chk.ob("R-C18-2", "Token::end:no-break", ok_none, "a token without a line break ends `width` columns after its start" if ok_none else
+               f"Token::end: a token without a line break no longer ends at start.offset_pos(<width of the printed form>): `{why_e}`", facts.loc_of(en))
+        chk.ob("R-C18-2", "Token::end:line-breaks", ok_some, "a token with line breaks ends on line + (number of \\n), at column 1 + what follows the last break" if ok_some else
+               f"Token::end: the end of a token that spans lines is not (line + number of line breaks, 1 + length of its last line): `{why_e}`: a multi-line "
+               "or empty string moves later line numbers or columns", facts.loc_of(en))
+        st = syn.one_fn("token", impl_of="State")
+        s_ = src(st["body"], -30).replace(" ", "")
+        # on every path that pushes the token, the caret is advanced exactly once, by `token.end(self.pos)`, after the push
+        ok1, ok3, why1 = True, True, None
+        n_paths = 0
+        for p_ in fn_paths(inline_lets(st["body"])):
+            evs = []
+            for ev in p_.events:
+                for n in walk(ev):
+                    if n.get("k") == "assign" and src(strip(n["l"])) == "self.pos":
+                        evs.append(("adv", n))
+                    elif n.get("k") == "mcall" and n["m"] == "push" and "Lex::new(self.pos,token" in src(n, -30).replace(" ", ""):
+                        evs.append(("push", n))
+            pushes = [i for i, (k_, _) in enumerate(evs) if k_ == "push"]
+            advs = [i for i, (k_, _) in enumerate(evs) if k_ == "adv"]
+            if not pushes:
+                if advs:
+                    ok1, why1 = False, "the caret moves on a path that records no token"
+                continue
+            n_paths += 1
+            if len(advs) != 1:
+                ok1, why1 = False, f"{len(advs)} caret updates on a path that records the token"
+                continue
+            r_ = strip(evs[advs[0]][1]["r"])
+            if not (r_.get("k") == "mcall" and r_["m"] == "end" and src(strip(r_["recv"])) == "token" and len(r_["args"]) == 1 and src(strip(r_["args"][0])) == "self.pos"):
+                ok1, why1 = False, f"the caret becomes `{src(r_, -30)[:60]}`"
+            if advs[0] < pushes[-1]:
+                ok3 = False
+        ok1 = ok1 and n_paths >= 1
+        chk.ob("R-C18-2", "State::token:advance", ok1, "State::token moves the caret to token.end(caret)" if ok1 else f"State::token no longer moves the caret to token.end(caret): {why1}", facts.loc_of(st))
+        chk.ob("R-C18-2", "State::token:start-before-advance", ok3 and n_paths >= 1, "the token is recorded at the caret before it advances" if ok3 and n_paths >= 1 else "the token is no longer recorded at the caret position before the advance", facts.loc_of(st))
+        ln = syn.one_fn("new", impl_of="Lex")
         lv = se.ev(ln["body"], {"start": ("var", "start"), "token": ("var", "token")})
         ok = False
-        why_l = symeval.show(lv)[:120]
         if lv[0] == "core" and lv[1] in ("Lex", "Self"):
             posv = lv[2].get("pos")
             if posv and posv[0] == "core" and posv[1] == "Position" and posv[2].get("start") == ("var", "start"):
-                endv = posv[2].get("end")
-                # end = <line start>.offset_pos(token.width())
-                if endv and endv[0] == "mcall" and endv[2] == "offset_pos" and endv[3] == [("mcall", ("var", "token"), "width", [])]:
-                    ch = symeval.variant_choice(endv[1], "Token")
-                    want = symeval.strip_text_var(("mcall", ("var", "start"), "offset_line", [("mcall", ("mcall", ("mcall", ("var", "x"), "lines", []), "count", []), "saturating_sub", [("int", "1")])]))
-                    if ch is not None and set(ch) == {"Str", "DocStr", "_"} and ch["_"] == ("var", "start") and \
-                            symeval.strip_text_var(ch["Str"]) == want and symeval.strip_text_var(ch["DocStr"]) == want:
-                        ok = True
-        chk.ob("R-C18-2", "Lex::new:end=start+width", ok, "Lex::new: end = start + (lines-1, width)" if ok else "Lex::new no longer computes end = start.offset_line(lines-1).offset_pos(width)", facts.loc_of(ln))
+                ok = posv[2].get("end") == ("mcall", ("var", "token"), "end", [("var", "start")])
+        chk.ob("R-C18-2", "Lex::new:end=token.end(start)", ok, "Lex::new: the span ends at token.end(start) - the same function that moves the caret" if ok else
+               f"Lex::new no longer computes end = token.end(start): `{symeval.show(lv)[:120]}`", facts.loc_of(ln))
         nl = syn.one_fn("newline", impl_of="State")
         n_ = src(nl["body"]).replace(" ", "")
         ok = "self.pos=self.pos.newline()" in n_ and "self.line_indent=1" in n_ and "self.newlines.push(Lex::new(self.pos,Token::NL))" in n_
@@ -290,7 +321,7 @@ def run(chk, facts):
     for bb, s in tk.stmts():
         if s.rv == "Aggregate" and s.detail.startswith("Adt|parse::lex::token::Token|") and s.detail.endswith("|Eof"):
             eof += 1
-    holds, path = must_call_blocks(tk, 0, lambda t: t.callee.endswith("State::flush_indents"))
+    holds, path = must_call_deep(mir, tk, 0, lambda t: t.callee.endswith("State::flush_indents"))
     chk.ob("R-C18-4", "flush_indents", holds, "every Ok path of tokenize flushes the open indents" if holds else "tokenize can return Ok without flush_indents: indents stay unmatched", tk.loc)
     chk.ob("R-C18-4", "one-Eof", eof == 1, "tokenize builds exactly one Eof token" if eof == 1 else f"tokenize builds {eof} Eof tokens", tk.loc)
     # the Eof is pushed outside the character loop
@@ -321,14 +352,12 @@ def run(chk, facts):
         # and nothing textual (trim, replace ..) is applied to the input - the recorded offset is that of the first character
         for tname in ("tokenize", "tokenize_direct"):
             tf_ = syn.one_fn(tname, mod="parse::lex")
-            ops_ = [n["m"] for n in walk(tf_["body"]) if n.get("k") == "mcall" and "input" in idents_in(n["recv"]) and
-                    n["m"] in ("trim", "trim_start", "trim_end", "trim_matches", "trim_start_matches", "trim_end_matches", "replace", "replacen", "strip_prefix", "strip_suffix",
-                               "to_lowercase", "to_uppercase", "split", "lines", "skip", "take", "filter", "rev")]
-            chars_ = [n for n in walk(tf_["body"]) if n.get("k") == "mcall" and n["m"] == "chars"]
-            okt = not ops_ and len(chars_) == 1 and src(strip(chars_[0]["recv"])) == "input"
-            chk.ob("R-C18-5", f"input-as-is:{tname}", okt, f"{tname} iterates `input.chars()` over the text as it is" if okt else
-                   f"{tname} transforms its input before lexing ({ops_ or src(chars_[0]['recv']) if chars_ else 'no chars()'}): the positions it reports are relative to the "
-                   "transformed text, the offsets recorded by the caller to the original one", facts.loc_of(tf_))
+            pin = tf_["sig"]["inputs"][0]["pat"].get("name", "input")
+            reached_, bad_ = text_as_is(syn, tf_, pin)
+            okt = not bad_ and len(reached_) == 1
+            chk.ob("R-C18-5", f"input-as-is:{tname}", okt, f"{tname} iterates the characters of its input as it is ({reached_[0]})" if okt else
+                   f"{tname} transforms its input before lexing ({'; '.join(bad_) if bad_ else f'chars() reached {len(reached_)} times'}): the positions it reports are "
+                   "relative to the transformed text, the offsets recorded by the caller to the original one", facts.loc_of(tf_))
         nodes = list(walk(inline_lets(strarm["body"])))     # `let start = lex.pos.offset(offset).start; Lex::new(start, ..)` alike
         # every Lex::new in the string arm (they build the nested tokens) starts at <token>.pos.offset(<recorded offset>).start, where the
         # offset is the one bound together with the re-lexed text (tuple pattern of the closure / loop over `exprs`)
@@ -349,9 +378,84 @@ def run(chk, facts):
             re.fullmatch(r"\(*(\w+)\.pos\.offset\(&?(\w+)\)\)*\.start", src(strip(n["args"][0])).replace(" ", "")) is not None and
             re.fullmatch(r"\(*(\w+)\.pos\.offset\(&?(\w+)\)\)*\.start", src(strip(n["args"][0])).replace(" ", "")).group(2) in off_names for n in lex_news)
         chk.ob("R-C18-5", "offset-applied", ok, "every nested token is shifted by the recorded offset" if ok else "nested tokens are no longer shifted by `lex.pos.offset(offset)`", loc)
-        ok = any(n.get("k") == "assign" and src(strip(n["l"])) == "cur_offset" and
-                 src(strip(n["r"])).replace(" ", "").replace("(", "").replace(")", "") == "state.pos.offset_posstring.len+1" for n in nodes)
-        chk.ob("R-C18-5", "offset-recorded", ok, "the offset is the caret plus the text so far plus the opening quote" if ok else "the recorded interpolation offset changed", loc)
+        # the recorded offset is a caret that runs along with the characters of the literal: it starts behind the opening quote, and on
+        # every path of the scanning loop that takes a character into the literal it advances exactly once - to the next line at a line
+        # feed, by one column otherwise - before it is recorded
+        from .common import fn_paths
+        why_o = None
+        rec = [n for n in walk(strarm["body"]) if n.get("k") == "mcall" and n["m"] == "push" and n["args"] and strip(n["args"][0]).get("k") == "tuple" and len(strip(n["args"][0])["elems"]) == 2]
+        recname = src(strip(strip(rec[0]["args"][0])["elems"][0])) if len(rec) == 1 else None
+        assigns = [n for n in walk(strarm["body"]) if n.get("k") == "assign" and src(strip(n["l"])) == recname]
+        run = src(strip(assigns[0]["r"])) if len(assigns) == 1 and strip(assigns[0]["r"]).get("k") == "path" else None
+        if recname is None or run is None:
+            why_o = f"the offset stored with the captured text (`{recname}`) is not a copy of one running caret ({[src(a_['r'], -30)[:50] for a_ in assigns]})"
+        else:
+            inits = [n for n in walk(strarm["body"]) if n.get("k") == "local" and n.get("init") is not None and [p_["name"] for p_ in walk(n["pat"]) if p_.get("k") == "pident"] == [run]]
+            if len(inits) != 1 or src(strip(inits[0]["init"]), -30).replace(" ", "") not in ("state.pos.offset_pos(1)",):
+                why_o = f"the running caret `{run}` does not start behind the opening quote (`{src(inits[0]['init'], -30)[:50] if inits else '-'}`)"
+            fors = [n for n in walk(strarm["body"]) if n.get("k") == "for" and any(m.get("k") == "assign" and src(strip(m["l"])) == recname for m in walk(n["body"]))]
+            if len(fors) != 1:
+                why_o = why_o or "no single scanning loop records the offset"
+            else:
+                cvar = src(fors[0]["pat"])
+                n_take = 0
+                for p_ in fn_paths(fors[0]["body"]):
+                    evs = [strip(e_) for e_ in p_.events]
+                    take = [i for i, e_ in enumerate(evs) if e_.get("k") == "mcall" and e_["m"] == "push" and src(strip(e_["recv"])) == "string"]
+                    upd = [i for i, e_ in enumerate(evs) if e_.get("k") == "assign" and src(strip(e_["l"])) == run]
+                    recd = [i for i, e_ in enumerate(evs) if e_.get("k") == "assign" and src(strip(e_["l"])) == recname]
+                    if not take:
+                        if upd:
+                            why_o = why_o or f"`{run}` moves on a path that takes no character"
+                        continue
+                    n_take += 1
+                    if len(upd) != 1:
+                        why_o = why_o or f"`{run}` is updated {len(upd)} times on a path that takes a character into the literal"
+                        continue
+                    r_ = strip(evs[upd[0]]["r"])
+                    shape = None
+                    if r_.get("k") == "if" and r_.get("else") is not None:
+                        shape = (src(r_["c"], -30).replace(" ", "").strip("()"), src(strip(r_["then"]), -30).replace(" ", ""), src(strip(r_["else"]), -30).replace(" ", ""))
+                    elif r_.get("k") == "match" and src(strip(r_["e"])) == cvar and len(r_["arms"]) == 2 and src(r_["arms"][1]["pat"]) == "_":
+                        shape = (f"{cvar}=={src(r_['arms'][0]['pat'])}", src(strip(r_["arms"][0]["body"]), -30).replace(" ", ""), src(strip(r_["arms"][1]["body"]), -30).replace(" ", ""))
+                    if shape != (f"{cvar}=='\\n'", f"{run}.newline()", f"{run}.offset_pos(1)"):
+                        why_o = why_o or f"`{run}` is advanced by `{src(r_, -30)[:70]}`, not to the next line at a line feed and by one column otherwise"
+                    if recd and recd[0] < upd[0]:
+                        why_o = why_o or "the offset is recorded before the caret has passed the opening brace"
+                if n_take == 0:
+                    why_o = why_o or "no path of the scanning loop takes a character"
+        ok = why_o is None
+        chk.ob("R-C18-5", "offset-recorded", ok, "the recorded offset is a caret that runs along with the characters of the literal (next line at a line feed, else one column)" if ok else
+               f"the recorded interpolation offset is not the position behind the opening brace: {why_o}", loc)
+        # a lexical error inside the interpolated text is shifted like the tokens are: its position is relative to the captured text
+        td_ = td[0] if td else None
+        err_ok, err_why = False, "the re-lexing call was not found"
+        if td_ is not None:
+            pmap = {}
+            for n in walk(strarm["body"]):
+                for ch_ in (n.values() if isinstance(n, dict) else []):
+                    for c_ in (ch_ if isinstance(ch_, list) else [ch_]):
+                        if isinstance(c_, dict):
+                            pmap[id(c_)] = n
+            par = pmap.get(id(td_))
+            while par is not None and par.get("k") in ("expr", "paren", "ref"):
+                par = pmap.get(id(par))
+            if par is not None and par.get("k") == "match" and strip(par["e"]) is td_:
+                earms = [a_ for a_ in par["arms"] if src(a_["pat"]).startswith("Err")]
+                err_why = "the Err arm hands the error on as it is: its position is relative to the interpolated text, not to the file"
+                if len(earms) == 1:
+                    calls = [n for n in walk(earms[0]["body"]) if n.get("k") == "mcall" and n["m"] == "offset" and n["args"] and src(strip(n["args"][0])) in off_names and ".pos" in src(n["recv"], -30)]
+                    err_ok = len(calls) == 1
+            elif par is not None and par.get("k") == "try":
+                err_why = "`tokenize_direct(..)?` hands the error on as it is: its position is relative to the interpolated text, not to the file"
+            elif par is not None and par.get("k") == "mcall" and par["m"] == "map_err" and par["args"]:
+                calls = [n for n in walk(par["args"][0]) if n.get("k") == "mcall" and n["m"] == "offset" and n["args"] and src(strip(n["args"][0])) in off_names]
+                err_ok = len(calls) == 1
+                err_why = "map_err does not shift the error by the recorded offset"
+            else:
+                err_why = f"the result of the re-lexing call is used in an unmodelled way (`{par.get('k') if par else None}`)"
+        chk.ob("R-C18-5", "error-offset-applied", err_ok, "a lexical error inside an interpolation is shifted by the recorded offset" if err_ok else
+               f"errors of the nested lexer: {err_why}", loc)
         ok = any(n.get("k") == "mcall" and n["m"] == "push" and src(strip(n["recv"])) == "exprs" and
                  src(strip(n["args"][0])).replace(" ", "") == "(cur_offset,cur_expr.clone())" for n in nodes)
         chk.ob("R-C18-5", "offset-paired-with-text", ok, "each captured expression is stored with its own offset" if ok else "captured expressions are no longer stored with their offset", loc)
